@@ -272,7 +272,7 @@ theorem ready_deps {env : Env} {fut : Fut} {born : Nat} (h : fut.ready env born 
   unfold Fut.ready at h
   simp only [Bool.and_eq_true, List.all_eq_true] at h
   intro x hx
-  simpa using h.1 x hx
+  simpa using h.1.1 x hx
 
 theorem pushFallback_str (b : Builder) (ids : List Nat) (s : Str) (h : b.id = some ids) :
     (b.pushFallback s).syncBuf = b.syncBuf ++ (Seg.hole ids s).str ∧ (b.pushFallback s).chunks = b.chunks ∧
